@@ -15,9 +15,9 @@ func init() {
 // frames or a journal left behind); after each import: state, log, raw image, export; after a
 // failed import: nothing changed and a restart succeeds.
 func genImport(c *Ctx) error {
-	c.Stats.Rule = "target state {absent, empty, dropped, populated (journal mode), populated (WAL with un-checkpointed frames)} x image {valid same page size, valid other page size, WAL-header image, page counts 1/2/5/255..257, truncated (missing pages / cut mid-page), zero-length, short garbage, bad magic, random bytes}; each followed by export and, after a refused import, a restart. Non-trivial = a successful import followed by an export, or a refused import into a populated database; distinct = distinct (target, image kind, page size, count)."
+	c.Stats.Rule = "target state {absent, empty, dropped, populated (journal mode), populated (WAL with un-checkpointed frames), WAL mode without a WAL file (itself created by importing a WAL-header image)} x image {valid same page size, valid other page size, WAL-header image, page counts 1/2/5/255..257, truncated (missing pages / cut mid-page), zero-length, short garbage, bad magic, random bytes}; each followed by export and, after a refused import, a restart. Non-trivial = a successful import followed by an export, or a refused import into a populated database; distinct = distinct (target, image kind, page size, count)."
 	r := c.Rng
-	targets := []string{"absent", "empty", "dropped", "journal", "wal"}
+	targets := []string{"absent", "empty", "dropped", "journal", "wal", "wal-nofile"}
 	kinds := []string{"valid", "valid", "valid-wal", "other-ps", "trunc-pages", "trunc-mid", "empty", "short", "badmagic", "random"}
 	reps := 1
 	if c.Tier == "thorough" {
@@ -49,6 +49,20 @@ func genImport(c *Ctx) error {
 						p.walTx(p.randomShape(3), false, false, false)
 						p.walTx(p.randomShape(3), false, true, false)
 					}
+				}
+				if tgt == "wal-nofile" {
+					// the database exists in WAL mode (its header says so) but no WAL file does:
+					// it was itself created by importing a WAL-header image
+					v0 := newVPrimary(r, ps)
+					v0.p.wal = true
+					v0.commit(r.Range(1, 5), map[int]bool{})
+					b := append([]byte{}, v0.img[0]...)
+					b[18], b[19] = 2, 2
+					v0.img[0], v0.tok[0] = b, hex.EncodeToString(b)
+					if res := do("import " + strings.Join(v0.tok, "+")); res != "ok" {
+						c.Fail("import(valid-wal into absent) refused: " + res)
+					}
+					adopt(p, v0, ps)
 				}
 				observeQuiet(cs, p)
 				// build the image to import
@@ -100,20 +114,10 @@ func genImport(c *Ctx) error {
 				ok := strings.HasPrefix(res, "ok") && !strings.Contains(res, "exit=")
 				c.Count("import." + kind + "." + firstWords(res, 1))
 				if ok {
-					// the image SQLite now sees: imported bytes with the change counter and schema cookie reset
-					img := make([][]byte, len(v.img))
-					toks := make([]string, len(v.img))
-					for i := range v.img {
-						img[i], toks[i] = v.img[i], v.tok[i]
-					}
-					b := append([]byte{}, img[0]...)
-					for _, o := range []int{24, 25, 26, 27, 40, 41, 42, 43} {
-						b[o] = 0
-					}
-					img[0], toks[0] = b, hex.EncodeToString(b)
-					p.ps, p.img, p.tok = ips, img, toks
-					p.wal = b[18] == 2 && b[19] == 2
-					p.walInit, p.walPages, p.walOff, p.journalFile = false, map[uint32][]byte{}, 0, false
+					adopt(p, v, ips)
+				}
+				if !ok && valid && ips == ps {
+					c.Fail(fmt.Sprintf("import(%s into %s): a valid image of the database's own page size was refused: %s", kind, tgt, res))
 				}
 				_ = valid
 				cs.Do(p.refLine())
@@ -149,13 +153,31 @@ func genImport(c *Ctx) error {
 					}
 				}
 				cs.End()
-				if ok || tgt == "journal" || tgt == "wal" {
+				if ok || tgt == "journal" || tgt == "wal" || tgt == "wal-nofile" {
 					c.Nontrivial(fmt.Sprintf("%s|%s|%d|%d|%d", tgt, kind, ps, ips, n))
 				}
 			}
 		}
 	}
 	return nil
+}
+
+// adopt: the image SQLite sees after a successful import: the imported bytes with the change
+// counter and schema cookie reset.
+func adopt(p *pager, v *vprimary, ips int) {
+	img := make([][]byte, len(v.img))
+	toks := make([]string, len(v.img))
+	for i := range v.img {
+		img[i], toks[i] = v.img[i], v.tok[i]
+	}
+	b := append([]byte{}, img[0]...)
+	for _, o := range []int{24, 25, 26, 27, 40, 41, 42, 43} {
+		b[o] = 0
+	}
+	img[0], toks[0] = b, hex.EncodeToString(b)
+	p.ps, p.img, p.tok = ips, img, toks
+	p.wal = b[18] == 2 && b[19] == 2
+	p.walInit, p.walPages, p.walOff, p.journalFile = false, map[uint32][]byte{}, 0, false
 }
 
 func observeQuiet(cs *Case, p *pager) {
